@@ -688,6 +688,171 @@ class RedConvert(Contract):
 
 
 # ----------------------------------------------------------------------------
+# parseVEP command loop: a rejected or failing row is counted and contributes no record
+# ----------------------------------------------------------------------------
+PVC = 'moPepGen/cli/parse_vep.py'
+
+
+class GhostRecordDict:
+    """vep_records: transcript id -> list; membership unconstrained, writes reported"""
+    def __init__(self, owner):
+        self.owner = owner
+
+    def sym_contains(self, I, item):
+        return I.e.bool('transcript_already_has_records')
+
+    def sym_setitem(self, I, key, v):
+        self.owner._cur.log.append(('new-list', key))
+
+    def sym_getitem(self, I, key):
+        owner = self.owner
+
+        class L_:
+            def sym_method(s_, I2, name, a, k):
+                if name == 'append':
+                    owner._cur.stored.append((key, a[0]))
+                    return None
+                if name == 'sort':
+                    return None
+                raise Unsupported(name)
+        return L_()
+
+    def sym_truth(self, I):
+        return I.e.bool('any_record_collected')
+
+    def sym_method(self, I, name, args, kwargs):
+        if name in ('values', 'keys'):
+            return FnView(I.e.int('n_keys'), lambda i: SymObj('KeyStub', i=i), tag=name)
+        raise Unsupported(f'vep_records.{name}')
+
+
+@register
+class VepCLI(Contract):
+    path, qualname, props = PVC, 'parse_vep', ('C14', 'C07')
+    assumptions = ('havoc: record.convert_to_variant_record returns a record or raises TranscriptionStart/StopSiteMutationError / anything else '
+                   '(its own contract is proved separately); VEPParser.parse yields the rows of a file; output sorting and writing are external',)
+
+    def setup(self, I):
+        e = I.e
+        st = types.SimpleNamespace(log=[], stored=[], outcome=None, writes=[])
+        st.F = e.int('n_files')
+        e.assume(st.F >= 0)
+        st.skip_failed = e.bool('skip_failed')
+        dests = parser_dests('moPepGen.cli.parse_vep', 'add_subparser_parse_vep')
+        files = FnView(st.F, lambda i: SymObj('PathStub14', i=i if is_z3(i) else z3.IntVal(i), suffix='.tsv'), tag='input files')
+        known = dict(input_path=files, output_path=OpaqueStr(['out']), skip_failed=st.skip_failed, source='gSNP')
+        st.args_obj = real_namespace(dests, known)
+        st.anno, st.genome = SymObj('AnnoStub14'), SymObj('GenomeStub14')
+        st.args = [st.args_obj]
+        self._cur = st
+        return st
+
+    @property
+    def models(self):
+        c = self
+
+        def inst(reg):
+            noop = lambda I, a, k: None
+            reg.func_('moPepGen/cli/common.py', 'validate_file_format', noop)
+            reg.func_('moPepGen/cli/common.py', 'print_start_message', noop)
+            reg.func_('moPepGen/cli/common.py', 'load_references', lambda I, a, k: (c._cur.genome, c._cur.anno, None, None))
+            reg.func_('moPepGen/cli/common.py', 'generate_metadata', lambda I, a, k: SymObj('Metadata'))
+            reg.ext_('open', lambda I, a, k: SymObj('File14'))
+            reg.ext_('gzip.open', lambda I, a, k: SymObj('File14'))
+            reg.strict_attr_classes = {'Namespace'}
+
+            def parse(I, a, k):
+                n = I.e.int('n_rows')
+                I.e.assume(n >= 0)
+                return FnView(n, lambda i: SymObj('VepRow', idx=i if is_z3(i) else z3.IntVal(i), feature=SymObj('TxKey', i=i)), tag='rows')
+            reg.func_('moPepGen/parser/VEPParser.py', 'parse', parse)
+
+            def convert(I, o, a, k):
+                st = c._cur
+                I.e.prove('C14/cli/convert-gets-annotation-and-genome', len(a) == 2 and a[0] is st.anno and a[1] is st.genome)
+                ch = I.e.choose(4, 'convert outcome')
+                st.outcome = ch
+                if ch == 1:
+                    raise PyRaise(SymExc('TranscriptionStopSiteMutationError', ['t']))
+                if ch == 2:
+                    raise PyRaise(SymExc('TranscriptionStartSiteMutationError', ['t']))
+                if ch == 3:
+                    raise PyRaise(SymExc('<any>', ['failure']))
+                st.result = SymObj('VariantRecordStub', of=o.fields['idx'])
+                return st.result
+            reg.method_('VepRow', 'convert_to_variant_record', convert)
+            reg.method_('AnnoStub14', 'get_transcript_rank', lambda I, o, a, k: SymObj('Rank'))
+            reg.sorted_hooks.append(lambda I, items, kw: items if isinstance(items, FnView) else None)
+            reg.func_('moPepGen/seqvar/io.py', 'write', lambda I, a, k: c._cur.writes.append(a[0]))
+            reg.ext_('seqvar.io.write', lambda I, a, k: c._cur.writes.append(a[0]))
+            reg.str_hooks.append(lambda v: (lambda I, v: OpaqueStr(['row'])) if isinstance(v, SymObj) and v.cls == 'VepRow' else None)
+            reg.method_('KeyStub', 'sort', lambda I, o, a, k: None)
+            reg.method_('AllRecords', 'extend', lambda I, o, a, k: None)
+
+            def stale(I, obj, attr):
+                I.e.prove('C14/cli/rejected-row-contributes-nothing (no record of an earlier row reused)', False)
+            reg.on_stale_use = stale
+        return (inst,)
+
+    def tally(self, env):
+        t = env['tally']
+        return t, t.fields['failed']
+
+    def havoc_tally(self, I, env, k):
+        e = I.e
+        t, f = self.tally(env)
+        t.fields['total'], t.fields['succeed'] = e.int('t_total'), e.int('t_succeed')
+        for n in ('total', 'stop_site_mutation', 'start_site_mutation'):
+            f.fields[n] = e.int(f't_failed_{n}')
+        env['vep_records'] = GhostRecordDict(self)
+
+    def inv(self, I, env, k):
+        t, f = self.tally(env)
+        return [('rows-read=succeeded+failed', t.fields['total'] == t.fields['succeed'] + f.fields['total']),
+                ('site-errors-are-part-of-the-failures', z3.And(f.fields['stop_site_mutation'] >= 0, f.fields['start_site_mutation'] >= 0,
+                                                                f.fields['stop_site_mutation'] + f.fields['start_site_mutation'] <= f.fields['total'],
+                                                                t.fields['succeed'] >= 0))]
+
+    def on_head(self, I, env, k):
+        st = self._cur
+        t, f = self.tally(env)
+        st.pre = dict(succeed=t.fields['succeed'], failed=f.fields['total'], stop=f.fields['stop_site_mutation'], start=f.fields['start_site_mutation'],
+                      ns=len(st.stored))
+        st.outcome = None
+
+    def step(self, I, env, k):
+        st = self._cur
+        t, f = self.tally(env)
+        d = lambda cur, key: z3.simplify(cur - st.pre[key])
+        ds, dfail, dstop, dstart = d(t.fields['succeed'], 'succeed'), d(f.fields['total'], 'failed'), d(f.fields['stop_site_mutation'], 'stop'), d(f.fields['start_site_mutation'], 'start')
+        eq = lambda x, v: z3.is_true(z3.simplify(x == v))
+        stored = st.stored[st.pre['ns']:]
+        if st.outcome == 0:
+            ok = eq(ds, 1) and eq(dfail, 0) and eq(dstop, 0) and eq(dstart, 0) and len(stored) == 1 and stored[0][1] is st.result \
+                and isinstance(stored[0][0], SymObj) and z3.is_true(z3.simplify(stored[0][0].fields['i'] == k))
+            return [('converted-row-stored-once-under-its-transcript-and-counted', ok)]
+        if st.outcome == 1:
+            return [('stop-site-row-counted-and-nothing-stored', eq(ds, 0) and eq(dfail, 1) and eq(dstop, 1) and eq(dstart, 0) and not stored)]
+        if st.outcome == 2:
+            return [('start-site-row-counted-and-nothing-stored', eq(ds, 0) and eq(dfail, 1) and eq(dstop, 0) and eq(dstart, 1) and not stored)]
+        return [('other-failure-with---skip-failed-counted-and-nothing-stored',
+                 z3.And(st.skip_failed, eq(ds, 0) and eq(dfail, 1) and eq(dstop, 0) and eq(dstart, 0) and not stored))]
+
+    @property
+    def loops(self):
+        T = lambda I, env, k: []
+        return {0: LoopSpec(inv=T), 1: LoopSpec(inv=self.inv, havoc=self.havoc_tally),
+                2: LoopSpec(inv=self.inv, havoc=self.havoc_tally, on_head=self.on_head, step=self.step),
+                3: LoopSpec(inv=T), 4: LoopSpec(inv=T, havoc=lambda I, env, k: env.__setitem__('all_records', SymObj('AllRecords')))}
+
+    def post_raise(self, I, st, exc):
+        I.e.prove('C14/cli/raise/only-an-unexpected-failure-without---skip-failed-propagates',
+                  z3.And(exc.cls == '<any>' and st.outcome == 3, z3.Not(st.skip_failed)))
+        if exc.cls == 'AttributeError':
+            I.e.prove(f'C14/cli/every-option-read-is-defined-by-the-parser:{exc.msg}', False)
+
+
+# ----------------------------------------------------------------------------
 # Native side: replay of counterexamples + CPython cross-check of the two contracts (bounded, labelled)
 # ----------------------------------------------------------------------------
 from pyvc.native import NativeCheck
